@@ -1,9 +1,156 @@
 ---------------------------- MODULE AvroLogical ----------------------------
-(* Logical types (C16).  Prep(t, v): the value actually stored for v under   *)
-(* schema node t: [st |-> "ok", v] | [st |-> "raise"].  Unprep(t, x): what   *)
-(* the reader returns for stored x.  STUB: identity (filled in later).       *)
-EXTENDS Naturals, Integers, Sequences, SequencesExt, BigNat
+(* Logical types (C16): the specification's representation of dates, times,  *)
+(* timestamps, UUIDs and decimals.                                           *)
+(*   Prep(t, v)   - the value actually stored for Python value v under node  *)
+(*                  t: [st |-> "ok", v] | [st |-> "raise"]; identity when t  *)
+(*                  carries no logical type or v is not the logical Python   *)
+(*                  type (an int under 'date' is stored as that int)         *)
+(*   Unprep(t, x) - what the reader returns for stored x                     *)
+(* Values: date[y,mo,d] time[h,mi,s,us,aware] datetime[y,mo,d,h,mi,s,us,     *)
+(* aware,off,offus] decimal[sign,digits,exp] uuid[hex]                       *)
+EXTENDS Naturals, Integers, Sequences, SequencesExt, BigNat, Text
 
-Prep(t, v) == [st |-> "ok", v |-> v]
-Unprep(t, x) == x
+\* ---- civil calendar (proleptic Gregorian), days relative to 1970-01-01 ----------------------
+\* for years 1..9999 every intermediate quantity is non-negative, so \div is floor division
+DaysFromCivil(y0, m, d) ==
+  LET y == IF m <= 2 THEN y0 - 1 ELSE y0
+      era == y \div 400
+      yoe == y - era * 400
+      mp == IF m > 2 THEN m - 3 ELSE m + 9
+      doy == ((153 * mp + 2) \div 5) + d - 1
+      doe == yoe * 365 + (yoe \div 4) - (yoe \div 100) + doy
+  IN era * 146097 + doe - 719468
+
+CivilFromDays(z0) ==
+  LET z == z0 + 719468
+      era == z \div 146097
+      doe == z - era * 146097
+      yoe == (doe - (doe \div 1460) + (doe \div 36524) - (doe \div 146096)) \div 365
+      doy == doe - (365 * yoe + (yoe \div 4) - (yoe \div 100))
+      mp == (5 * doy + 2) \div 153
+      d == doy - ((153 * mp + 2) \div 5) + 1
+      m == IF mp < 10 THEN mp + 3 ELSE mp - 9
+      y == yoe + era * 400 + (IF m <= 2 THEN 1 ELSE 0)
+  IN [y |-> y, mo |-> m, d |-> d]
+
+MinDay == DaysFromCivil(1, 1, 1)           \* -719162
+MaxDay == DaysFromCivil(9999, 12, 31)      \*  2932896
+
+IsLeap(y) == (y % 4 = 0 /\ y % 100 # 0) \/ y % 400 = 0
+DaysInMonth(y, m) == IF m = 2 THEN (IF IsLeap(y) THEN 29 ELSE 28) ELSE IF m \in {4, 6, 9, 11} THEN 30 ELSE 31
+
+\* ---- times --------------------------------------------------------------------------------------
+MillisOfDay(v) == v.h * 3600000 + v.mi * 60000 + v.s * 1000 + (v.us \div 1000)
+\* micros of day exceed 2^31: BigNat
+MicrosOfDay(v) == IAdd(IMulSmall(IFromNat(v.h * 3600 + v.mi * 60 + v.s), 1000000), IFromNat(v.us))
+
+\* ---- instants -----------------------------------------------------------------------------------
+\* microseconds from 1970-01-01T00:00:00 of the civil fields, minus the UTC offset
+EpochMicros(v, useOffset) ==
+  LET days == DaysFromCivil(v.y, v.mo, v.d)
+      sod == v.h * 3600 + v.mi * 60 + v.s
+      secs == IAdd(IMulSmall(IFromInt(days), 86400), IFromInt(IF useOffset THEN sod - v.off ELSE sod))
+  IN IAdd(IMulSmall(secs, 1000000), IFromInt(IF useOffset THEN v.us - v.offus ELSE v.us))
+
+FloorDiv1000(x) == IFloorDivMod(x, 1000).q
+\* truncation toward zero
+TruncDiv1000(x) == IMk(x.neg, NDivModSmall(x.mag, 1000).q)
+
+\* datetime from microseconds since the epoch (x: integer); [ok, v]
+DateTimeOfMicros(x, aware) ==
+  LET a == IFloorDivMod(x, 1000000)             \* seconds, microsecond
+      b == IFloorDivMod(a.q, 86400)             \* days, second of day
+  IN IF ~IIsSmall(b.q) THEN [ok |-> FALSE]
+     ELSE LET days == IToInt(b.q) IN
+          IF days < MinDay \/ days > MaxDay THEN [ok |-> FALSE]
+          ELSE LET c == CivilFromDays(days) IN
+               [ok |-> TRUE,
+                v |-> [p |-> "datetime", y |-> c.y, mo |-> c.mo, d |-> c.d, h |-> b.r \div 3600, mi |-> (b.r \div 60) % 60,
+                       s |-> b.r % 60, us |-> a.r, aware |-> aware, off |-> 0, offus |-> 0]]
+
+\* ---- UUID -----------------------------------------------------------------------------------------
+HexCp(n) == IF n < 10 THEN 48 + n ELSE 87 + n
+UuidText(hex) ==
+  LET h == MapSeq(HexCp, hex) IN
+  SubSeq(h, 1, 8) \o <<45>> \o SubSeq(h, 9, 12) \o <<45>> \o SubSeq(h, 13, 16) \o <<45>> \o SubSeq(h, 17, 20) \o <<45>> \o SubSeq(h, 21, 32)
+HexVal(c) == IF c >= 48 /\ c <= 57 THEN c - 48 ELSE IF c >= 97 /\ c <= 102 THEN c - 87 ELSE IF c >= 65 /\ c <= 70 THEN c - 55 ELSE 16
+\* canonical 8-4-4-4-12 text -> nibbles; [ok, hex]
+UuidOfText(cp) ==
+  IF Len(cp) # 36 \/ cp[9] # 45 \/ cp[14] # 45 \/ cp[19] # 45 \/ cp[24] # 45 THEN [ok |-> FALSE]
+  ELSE LET digits == SubSeq(cp, 1, 8) \o SubSeq(cp, 10, 13) \o SubSeq(cp, 15, 18) \o SubSeq(cp, 20, 23) \o SubSeq(cp, 25, 36)
+           hex == MapSeq(HexVal, digits)
+       IN IF \E i \in 1..32 : hex[i] = 16 THEN [ok |-> FALSE] ELSE [ok |-> TRUE, hex |-> hex]
+
+\* ---- decimals ---------------------------------------------------------------------------------------
+\* strip leading zero digits (keep value); <<>> for zero
+RECURSIVE StripZeros(_)
+StripZeros(ds) == IF ds = <<>> THEN <<>> ELSE IF ds[1] = 0 THEN StripZeros(Tail(ds)) ELSE ds
+\* the conditions under which a decimal must not be stored (C16): too many significant digits, too many fractional digits
+DecimalMustRaise(v, prec, scale) == Len(v.digits) > prec \/ v.exp + scale < 0
+\* unscaled integer of v at the given scale (defined when v.exp + scale >= 0)
+Unscaled(v, scale) == IMk(v.sign = 1, NMul(NFromDigits(v.digits), NPow10(v.exp + scale)))
+\* numeric equality of two decimal values
+DecEq(a, b) ==
+  LET e == IF a.exp < b.exp THEN a.exp ELSE b.exp
+      ma == NMul(NFromDigits(a.digits), NPow10(a.exp - e))
+      mb == NMul(NFromDigits(b.digits), NPow10(b.exp - e))
+  IN ma = mb /\ (ma = <<>> \/ a.sign = b.sign)
+\* what read_decimal returns for the unscaled integer x
+DecimalOfUnscaled(x, scale) ==
+  [p |-> "decimal", sign |-> IF x.neg THEN 1 ELSE 0, digits |-> IF x.mag = <<>> THEN <<0>> ELSE NToDigits(x.mag), exp |-> 0 - scale]
+\* number of bytes fastavro's bytes-decimal uses: (bit_length + 8) div 8; any sign-extended length denotes the same number,
+\* the property does not demand the minimal one (C16.repr judges the denotation, not the length)
+BytesDecimalLen(x) == (NBitLength(x.mag) + 8) \div 8
+
+\* ---- Prep / Unprep --------------------------------------------------------------------------------------
+LtOf(t) == IF "lt" \in DOMAIN t THEN t.lt.n ELSE ""
+POk(v) == [st |-> "ok", v |-> v]
+PRaise == [st |-> "raise"]
+PInt(x) == POk([p |-> "int", neg |-> x.neg, mag |-> x.mag])
+
+Prep(t, v) ==
+  LET l == LtOf(t) IN
+  IF l = "" THEN POk(v)
+  ELSE CASE l = "date" /\ v.p = "date" -> PInt(IFromInt(DaysFromCivil(v.y, v.mo, v.d)))
+         [] l = "time-millis" /\ v.p = "time" -> PInt(IFromNat(MillisOfDay(v)))
+         [] l = "time-micros" /\ v.p = "time" -> PInt(MicrosOfDay(v))
+         [] l = "timestamp-micros" /\ v.p = "datetime" -> PInt(EpochMicros(v, v.aware))
+         [] l = "timestamp-millis" /\ v.p = "datetime" -> PInt(FloorDiv1000(EpochMicros(v, v.aware)))
+         [] l = "local-timestamp-micros" /\ v.p = "datetime" -> PInt(EpochMicros(v, FALSE))
+         [] l = "local-timestamp-millis" /\ v.p = "datetime" -> PInt(FloorDiv1000(EpochMicros(v, FALSE)))
+         [] l = "uuid" /\ v.p = "uuid" -> POk([p |-> "str", cp |-> UuidText(v.hex)])
+         [] l = "decimal" /\ v.p = "decimal" ->
+              IF DecimalMustRaise(v, t.lt.prec, t.lt.scale) THEN PRaise
+              ELSE LET x == Unscaled(v, t.lt.scale) IN
+                   IF t.k = "fixed" THEN (IF t.size >= 1 /\ FitsTwos(x, t.size) THEN POk([p |-> "bytes", by |-> TwosBE(x, t.size)]) ELSE PRaise)
+                   ELSE POk([p |-> "bytes", by |-> TwosBE(x, BytesDecimalLen(x))])
+         [] l = "decimal" /\ v.p = "decimal_special" -> PRaise
+         [] OTHER -> POk(v)
+
+\* x: stored value (int / str / bytes); the reader's conversion. Out-of-range stored numbers give [p |-> "unrepresentable"].
+Unprep(t, x) ==
+  LET l == LtOf(t)
+      bad == [p |-> "unrepresentable"]
+      ix == [neg |-> x.neg, mag |-> x.mag]
+  IN
+  IF l = "" THEN x
+  ELSE CASE l = "date" /\ x.p = "int" ->
+              IF ~IIsSmall(ix) \/ IToInt(ix) < MinDay \/ IToInt(ix) > MaxDay THEN bad
+              ELSE LET c == CivilFromDays(IToInt(ix)) IN [p |-> "date", y |-> c.y, mo |-> c.mo, d |-> c.d]
+         [] l = "time-millis" /\ x.p = "int" ->
+              IF x.neg \/ ~IIsSmall(ix) \/ IToInt(ix) >= 86400000 THEN bad
+              ELSE LET ms == IToInt(ix) IN
+                   [p |-> "time", h |-> ms \div 3600000, mi |-> (ms \div 60000) % 60, s |-> (ms \div 1000) % 60, us |-> (ms % 1000) * 1000, aware |-> FALSE]
+         [] l = "time-micros" /\ x.p = "int" ->
+              LET a == IFloorDivMod(ix, 1000000) IN
+              IF x.neg \/ ~IIsSmall(a.q) \/ IToInt(a.q) >= 86400 THEN bad
+              ELSE LET sod == IToInt(a.q) IN
+                   [p |-> "time", h |-> sod \div 3600, mi |-> (sod \div 60) % 60, s |-> sod % 60, us |-> a.r, aware |-> FALSE]
+         [] l \in {"timestamp-micros", "local-timestamp-micros"} /\ x.p = "int" ->
+              LET r == DateTimeOfMicros(ix, l = "timestamp-micros") IN IF r.ok THEN r.v ELSE bad
+         [] l \in {"timestamp-millis", "local-timestamp-millis"} /\ x.p = "int" ->
+              LET r == DateTimeOfMicros(IMulSmall(ix, 1000), l = "timestamp-millis") IN IF r.ok THEN r.v ELSE bad
+         [] l = "uuid" /\ x.p = "str" -> LET u == UuidOfText(x.cp) IN IF u.ok THEN [p |-> "uuid", hex |-> u.hex] ELSE bad
+         [] l = "decimal" /\ x.p = "bytes" -> IF x.by = <<>> THEN bad ELSE DecimalOfUnscaled(FromTwosBE(x.by), t.lt.scale)
+         [] OTHER -> x
 =============================================================================
